@@ -288,7 +288,11 @@ def judge(chk, byid, res, rule, variant):
         raise ToolError("vacuity: %d complete circuits, %d violating assignments" % (complete, viol))
     if ctrl < 10:
         raise ToolError("the external prover is not validated: only %d accepted controls" % ctrl)
-    for kind in ("out_notin", "inp_notin", "pair_other_table", "table_cell", "lu_pad", "table_pad", "mult"):
+    for kind in ("out_notin", "out_other_entry", "inp_notin", "pair_other_table", "table_cell", "lu_pad", "lu_slot_only"):
+        for st in ("plain", "ext_plain", "ext_shift"):
+            if not any(k.startswith("%s/%s/violating/" % (kind, st)) for k in stats):
+                raise ToolError("vacuity: no violating assignment of kind %s met strategy %s" % (kind, st))
+    for kind in ("table_pad", "mult", "noop_cell"):
         if not any(k.startswith(kind + "/") for k in stats):
             raise ToolError("vacuity: corruption kind %s was never produced" % kind)
 
